@@ -87,6 +87,8 @@ def run_stage(work, drive, st, seed, out, model_invs, model_props):
             f.writelines(lines)
         args = ["replay", "-kind", st.kind, "-u", st.uname, "-size", st.size, "-seed", str(useed), "-in", edges,
                 "-out", trace, "-battery", st.battery, "-stats", stats]
+        if st.kw.get("prebattery"):
+            args.append("-prebattery")
         if st.typ == "sim" and st.kw.get("every", True):
             args.append("-every")
         elif st.typ == "sim":
